@@ -507,7 +507,22 @@ func (s *Sim) Run() {
 		}
 	}
 	var idleAccum time.Duration
+	spin := 0
+	lastSteps := -1
 	for {
+		if s.Stats.Steps != lastSteps {
+			lastSteps = s.Stats.Steps
+			spin = 0
+		}
+		spin++
+		if spin > 200000 {
+			var desc []string
+			for _, t := range s.tasks {
+				desc = append(desc, fmt.Sprintf("%s[state=%d point=%s lock=%v cond=%v wake=%v(%v) stall=%v(%v) frozen=%d]", t.Name, t.state, t.point, t.wantLock != nil, t.cond != nil, t.hasWake, t.wakeAt.Sub(s.start), t.hasStall, t.stallUntil.Sub(s.start), t.frozenUntil))
+			}
+			s.Violate("HARNESS", "scheduler-spin", "scheduler loop made no step in 200000 iterations at step %d now=%v: %s", s.Stats.Steps, s.Now(), strings.Join(desc, "; "))
+			break
+		}
 		synctest.Wait()
 		s.mu.Lock()
 		ran := s.cur
@@ -637,6 +652,7 @@ func (s *Sim) nextWake(now time.Time) (time.Duration, bool) {
 		}
 		if t.hasStall {
 			consider(t.stallUntil)
+			continue
 		}
 		if t.hasWake && t.cond != nil {
 			consider(t.wakeAt)
@@ -718,7 +734,7 @@ func (s *Sim) resumeTask(t *Task, ran *Task, R []*Task) {
 			n := 1 + s.C.Choose(s.Cfg.PauseMax)
 			s.Freeze(t, n)
 			s.Logf("freeze %s @%s for %d steps", t.Name, t.point, n)
-		} else if s.Cfg.StallNum > 0 && s.C.Bool(s.Cfg.StallNum, s.Cfg.StallDen) {
+		} else if s.Cfg.StallNum > 0 && t.cond == nil && s.C.Bool(s.Cfg.StallNum, s.Cfg.StallDen) {
 			d := time.Duration(1+s.C.Choose(1000)) * s.Cfg.StallMax / 1000
 			t.hasStall = true
 			t.stallUntil = time.Now().Add(d)
